@@ -576,8 +576,59 @@ fn mod_case() -> impl Strategy<Value = EvalCase> {
     })
 }
 
+/// a self-describing binary format (CBOR, ciborium): encode, decode, and decode again from a map
+/// whose entries are permuted, repeated or missing (structs travel as maps there)
+fn cbor_case() -> impl Strategy<Value = EvalCase> {
+    (0u8..6, gen::nat(Prof::Small), gen::nat_nz(Prof::Small), any::<bool>(), -40i64..40, 1u32..40, 0u8..12).prop_map(|(ty, a, b, neg, e, p, ord)| {
+        let ia = if neg { -BigInt::from(a.big()) } else { BigInt::from(a.big()) };
+        let t = ["u", "i", "d", "b", "r", "R"][ty as usize];
+        let nkeys = match ty {
+            0 | 1 => 0,
+            2 | 3 => 3,
+            _ => 2,
+        };
+        // entry orders: identity, every rotation / reversal, a repeated entry, a missing entry
+        let orders3 = ["012", "021", "102", "120", "201", "210", "0012", "0122", "01", "12", "02", "0120"];
+        let orders2 = ["01", "10", "001", "011", "0", "1", "010", "101", "01", "10", "01", "10"];
+        let order = match nkeys {
+            3 => orders3[ord as usize % 12],
+            2 => orders2[ord as usize % 12],
+            _ => "0",
+        };
+        let mut sorted: Vec<char> = order.chars().collect();
+        sorted.sort();
+        sorted.dedup();
+        let is_perm = sorted.len() == nkeys && order.len() == nkeys;
+        let expect = match nkeys {
+            0 => "RT=true NOMAP".to_string(),
+            n => format!("RT=true MAP{n} PERM={}", if is_perm { "OK-equal" } else { "ERR" }),
+        };
+        let line = match ty {
+            0 => format!("cbor u {order} {}", hxu(&a.big())),
+            1 => format!("cbor i {order} {}", hx(&ia)),
+            2 | 3 => {
+                // significand of at most p digits in the type's base: keep it short
+                let base: u64 = if ty == 2 { 10 } else { 2 };
+                let m = sig_pattern(base, (p as u64).min(30), (ord % 9) as u8, a.0.first().copied().unwrap_or(1));
+                let m = if neg { -BigInt::from(m) } else { BigInt::from(m) };
+                format!("cbor {t} {order} {} {e} {p}", hx(&m))
+            }
+            _ => format!("cbor {t} {order} {} {}", hx(&ia), hxu(&b.big())),
+        };
+        let label = match (nkeys, is_perm, order.len() == nkeys) {
+            (0, _, _) => "serde:cbor integer round trip",
+            (_, true, _) if order.starts_with('0') && order.chars().collect::<Vec<_>>().windows(2).all(|w| w[0] < w[1]) => "serde:cbor struct round trip",
+            (_, true, _) => "serde:cbor struct, map entries permuted",
+            (_, false, false) if order.len() > nkeys => "serde:cbor struct, a map entry repeated (must be refused)",
+            _ => "serde:cbor struct, a map entry missing (must be refused)",
+        };
+        EvalCase { line, expect: Some(expect), kind: "eq".into(), label: label.into(), nontrivial: true }
+    })
+}
+
 fn all_cases() -> impl Strategy<Value = EvalCase> {
     prop_oneof![
+        2 => cbor_case(),
         3 => conv_case(),
         3 => mod_case(),
         8 => int_case(),
@@ -908,7 +959,7 @@ fn run_batch(bins: &[(String, String)], cases: &[EvalCase], tag: &str) -> Result
 fn main() {
     let mut ck = Check::new(
         "C19",
-        "a deterministic case file (integer ring/division/gcd/bit/shift/pow/root/ilog/radix text/bytes/f32-f64 conversion (also next to rounding boundaries: mantissa, half bit and one sticky bit at every distance, anchored to round-to-nearest-even computed by the check)/modular ops (also products of residues shorter than the modulus with moduli whose length is a whole number of 32/64-bit words), decimal and binary float add/sub/mul/div/sqrt/print/parse/to_int/to_f64/base change, rational arithmetic/print/parse/to_f64, serde json + postcard encodings, decoding of round-tripped, mutated and arbitrary input) generated from the seed with the structured operand generators and evaluated by dv-eval compiled against dashu in N build configurations {native x86_64, force_bits=64 (generic), force_bits=32} × {std, no_std} × {debug assertions on, off}; outputs compared line by line across builds, integer/rational results anchored to num-bigint, log2 bounds checked as enclosures per build, decoded values checked for canonical form. Non-trivial: operands longer than one word, float/ratio/serde cases; distinct by case line.",
+        "a deterministic case file (integer ring/division/gcd/bit/shift/pow/root/ilog/radix text/bytes/f32-f64 conversion (also next to rounding boundaries: mantissa, half bit and one sticky bit at every distance, anchored to round-to-nearest-even computed by the check)/modular ops (also products of residues shorter than the modulus with moduli whose length is a whole number of 32/64-bit words), decimal and binary float add/sub/mul/div/sqrt/print/parse/to_int/to_f64/base change, rational arithmetic/print/parse/to_f64, serde json + postcard + CBOR encodings (CBOR: structs as maps, decoded again with the map entries permuted / repeated / missing), decoding of round-tripped, mutated and arbitrary input) generated from the seed with the structured operand generators and evaluated by dv-eval compiled against dashu in N build configurations {native x86_64, force_bits=64 (generic), force_bits=32} × {std, no_std} × {debug assertions on, off}; outputs compared line by line across builds, integer/rational results anchored to num-bigint, log2 bounds checked as enclosures per build, decoded values checked for canonical form. Non-trivial: operands longer than one word, float/ratio/serde cases; distinct by case line.",
     );
     let th = ck.thorough();
     let mut cfgs: Vec<Cfg> = QUICK_CFGS.to_vec();
